@@ -53,7 +53,10 @@ def _run_variant(prop: str, repo_root: str, variant: dict, base_keys: set[str]) 
         expect = variant.get("expect")
         named = True
         if fired and expect:
-            named = any(expect in l for l in lines) or any(expect in l for l in r.stdout.splitlines() if l.startswith("VIOLATION"))
+            import re as _re
+
+            nz = lambda t: _re.sub(r"[^A-Za-z0-9]+", "_", t)
+            named = any(nz(expect) in nz(l) for l in r.stdout.splitlines())
         return {"name": variant["name"], "kind": variant["kind"], "exit": r.returncode, "fired": fired, "named": named, "first": (lines[0][:200] if lines else r.stdout.strip()[-200:])}
     finally:
         shutil.rmtree(d, ignore_errors=True)
